@@ -1,5 +1,5 @@
 """C05 - completion. Proof (partial, safety): coq/Props/C05.v. Tie: trace validation incl. the quiescence test (deadlock detector on the real scheduler, "nothing enabled" on the model)."""
-from .. import common, sched_check, monitors
+from .. import common, sched_check, monitors, gen, tracelib
 
 KINDS = ['uncertified', 'impl_err:deadlock', 'impl_err:internal:assert', 'impl_err:internal:backwards', 'impl_err:internal:past', 'model_err:backwards', 'model_err:past', 'notdone', 'quiesce_enabled', 'tables', 'tables_anc']
 
@@ -7,7 +7,13 @@ KINDS = ['uncertified', 'impl_err:deadlock', 'impl_err:internal:assert', 'impl_e
 def P_C05(ctx, log, outcome_kind='ok', val=None, **kw):
     if outcome_kind in ('ok', 'loop', 'scenario'):
         return []
-    return [f'run() did not complete: {outcome_kind} ({val.impl_outcome[:160] if val else ""})']
+    extra = ''
+    if outcome_kind == 'deadlock':
+        # is the model, replayed on the same events, blocked in the same state (a deadlock of the scheduling rules), or
+        # does it have an enabled simulator (a lost wake-up)?
+        blocked = val is not None and not any(d['kind'] == 'quiesce_enabled' for d in val.disc)
+        extra = f' [lazy_stepping={kw.get("lazy")} model_blocked={blocked}]'
+    return [f'run() did not complete: {outcome_kind}{extra} ({val.impl_outcome[:160] if val else ""})']
 
 def nontrivial(case, run, val):
     busy = set(); two = False
@@ -28,6 +34,7 @@ def features(case, run, val):
 
 def known_match(failure, case, hyp_violated):
     if 'incomparable' in failure: return 'F9'
+    if 'deadlock [lazy_stepping=True model_blocked=True]' in failure and not tracelib.convex(case): return 'F21'
     return None
 
 
@@ -39,6 +46,7 @@ def run(out, info, tier, seed):
         'theorem premise static_ok (shape facts; the ancestors table dominates every trigger path) is checked per scenario by comparing the model-built tables with the implementation, not yet discharged by a closure theorem']
     out.assumptions = ['simulators are an oracle: any reply sequence (event list); delays that are compared have equal shape (convex group scenarios)']
     sched_check.sched_property(out, info, tier, seed, 'C05', KINDS, P_C05, gen_opts={'groups': True},
+                               case_gen=lambda rng, k: gen.gen_reentry_case(rng) if k % 4 == 3 else gen.gen_loop_case(rng) if k % 8 == 6 else gen.gen_case(rng, groups=True),
                                ncases=(110, 1500), variants=[(True, True), (False, True), (True, False)], nontrivial=nontrivial, features=features,
                                known_match=known_match, hyp=None,
                                extra_obligations=[('Sched.Inv (invariant preserved by every event)', 'Sched/Inv'),
